@@ -357,10 +357,12 @@ example :
      | .ok (m', rest) => m'.get 2 == some ⟨0, 9999999999, 65535⟩ && m'.get 1 == some ⟨0, -1, 65535⟩ && rest == [116]
      | _ => false) = true := by decide +kernel
 
-/-- the table form is refused exactly when a number below `nextRef` lives in an object stream -/
+/-- the table form is refused exactly when a number below `nextRef` lives in an object stream, or
+    an object starts at byte 10^10 or later (an entry has ten digits for the offset) -/
 theorem xrefTableBody_isSome (m : XMap) (n : Nat) :
-    (xrefTableBody m n).isSome = !hasInStream m n := by
-  unfold xrefTableBody; split <;> simp_all
+    (xrefTableBody m n).isSome =
+      (!hasInStream m n && !m.any (fun ne => ne.2.inStream == 0 && decide (ne.2.pos > 9999999999))) := by
+  unfold xrefTableBody; split <;> (try split) <;> simp_all <;> assumption
 
 
 /-! ## cross-reference streams: `decodeXRefStream ∘ rows`, PNG-Up rows, widths -/
@@ -584,7 +586,7 @@ theorem maxFields_lt_two64 (m : XMap) (k : Nat) : ∀ i,
           · exact ⟨hu, by unfold two64; omega⟩
           · constructor
             · unfold two64; omega
-            · split <;> (unfold two64; omega)
+            · unfold two64; omega
     simp only [maxFields]
     exact ⟨Nat.max_lt.2 ⟨h0.1, h1.1⟩, Nat.max_lt.2 ⟨h0.2, h1.2⟩⟩
 
@@ -612,14 +614,32 @@ theorem xref_stream_rt (m : XMap) (n : Nat) (hok : ∀ j, j < n → EntryOK (m.g
   simp only [List.append_nil] at h1
   simp [decodeXRefStream, h1]
 
--- non-vacuity: a table with unwritten, free, in-use and compressed entries (W = [1 3 1])
+/-- **free entries keep their generation.**  With the widths chosen by `writeXRefStream` the third
+field is wide enough for the generation of every free entry — in particular for the 65535 of
+object 0, which needs two bytes (ISO 32000, 7.5.4 and 7.5.8.3): the entry decodes with exactly the
+generation written.  (Before the library fix the sizing loop counted 65535 as 0 and the entry of
+object 0 was written as 0, 255 or 65535 depending on the other entries.) -/
+theorem xref_stream_free_gen_exact (m : XMap) (n j : Nat) (hj : j < n) (e : XEntry)
+    (hm : m.get j = some e) (hneg : e.pos < 0) (hin : e.inStream = 0) :
+    normStm (fieldWidth (maxFields m 0 n).2) (some e) = { inStream := 0, pos := -1, gen := e.gen } := by
+  have hge := (maxFields_ge m n 0 j (by omega) (by omega)).2
+  rw [hm] at hge
+  have hsz : (sizingFields (some e)).2 = e.gen := by
+    have hp : ¬ (e.pos ≥ 0) := by omega
+    simp [sizingFields, hin, hp]
+  rw [hsz] at hge
+  have hlt := fieldWidth_holds hge
+  simp [normStm, hneg, Nat.mod_eq_of_lt hlt]
+
+-- non-vacuity: a table with unwritten, free, in-use and compressed entries (W = [1 3 2]: the
+-- generation 65535 of object 0 needs two bytes)
 example :
     (let m : XMap := [(0, ⟨0, -1, 65535⟩), (2, ⟨0, 70000, 0⟩), (3, ⟨5, 7, 0⟩), (5, ⟨0, 300, 1⟩)]
      let w2 := fieldWidth (maxFields m 0 6).1
      let w3 := fieldWidth (maxFields m 0 6).2
      match decodeXRefStream 1 w2 w3 [] (xrefRows m w2 w3 0 6).flatten [(0, 6)] with
-     | .ok m' => w2 == 3 && w3 == 1 && m'.get 3 == some ⟨5, 7, 0⟩ && m'.get 2 == some ⟨0, 70000, 0⟩ &&
-                 m'.get 1 == some ⟨0, -1, 0⟩ && m'.get 0 == some ⟨0, -1, 255⟩
+     | .ok m' => w2 == 3 && w3 == 2 && m'.get 3 == some ⟨5, 7, 0⟩ && m'.get 2 == some ⟨0, 70000, 0⟩ &&
+                 m'.get 1 == some ⟨0, -1, 0⟩ && m'.get 0 == some ⟨0, -1, 65535⟩
      | _ => false) = true := by decide +kernel
 
 
